@@ -155,9 +155,29 @@ Proof. exact @lmds_total_lemma. Qed.
 Print Assumptions lmds_no_oob.
 
 Local Open Scope string_scope.
-(* T10 bounds (F21, open): target_dimension > #landmarks is NOT rejected by validation
-   (InRange(1, N) on target_dimension, [3/N, 1] on the ratio) and then rightCols(d) leaves the
-   L-column eigenvector matrix, whatever the solver answered. *)
+(* T10 bounds, CURRENT code (fix F21, b4b2738): a request accepted by the constructor and by
+   validate() has target_dimension <= count <= N for the landmark count the code computes, so the
+   whole method produces an embedding without any out-of-range access. *)
+Theorem lmds_validated_no_oob : forall (F : Type) (Fo : FieldOps F) (Ff : IsField F)
+    (N d : nat) (ratio : float) (count : nat) (shuffled : list nat) (dist W : mat F) (w s : vec F),
+  Permutation shuffled (seq 0 N) ->
+  lmds_validate N d ratio = true ->
+  n_landmarks_nat N ratio = Some count ->
+  d <= count /\ count <= N /\
+  exists ws, lmds N d shuffled count dist W w s = LOk ws /\
+    (forall x, x < N -> count_occ Nat.eq_dec (map fst ws) x = 1) /\
+    (forall x, In x (map fst ws) -> x < N).
+Proof. exact @lmds_validated_no_oob_lemma. Qed.
+Print Assumptions lmds_validated_no_oob.
+
+Example lmds_validated_no_oob_nonvacuous :
+  lmds_validate 10 3 0x1.3333333333333p-2%float = true /\
+  n_landmarks_nat 10 0x1.3333333333333p-2%float = Some 3.
+Proof. exact (conj (proj2 (proj2 f21_validate_witness)) (proj2 f21_float_witness)). Qed.
+
+(* T11 bounds, code BEFORE fix F21 (regression theorem): target_dimension > #landmarks was not
+   rejected (InRange(1, N) on target_dimension, [3/N, 1] on the ratio only) and then rightCols(d)
+   leaves the L-column eigenvector matrix, whatever the solver answered. *)
 Theorem lmds_bounds_refuted : forall (F : Type) (Fo : FieldOps F)
     (N d : nat) (lm : list nat) (dist W : mat F) (w s : vec F),
   Forall (fun l => l < N) lm -> length lm < d ->
@@ -167,10 +187,13 @@ Proof. exact @lmds_embed_bounds. Qed.
 Print Assumptions lmds_bounds_refuted.
 
 Example lmds_bounds_refuted_witness :
+  lmds_validate_old 10 5 0x1.3333333333333p-2%float = true /\
+  lmds_validate 10 5 0x1.3333333333333p-2%float = false /\
   ratio_valid 10 0x1.3333333333333p-2%float = true /\
   n_landmarks_nat 10 0x1.3333333333333p-2%float = Some 3 /\
   lmds_embed 6 5 [0; 1; 2] ex_dist ex_W ex_w ex_s =
     LOOB "solver.eigenvectors().rightCols(target_dimension)" 5 3.
 Proof.
-  exact (conj (proj1 f21_float_witness) (conj (proj2 f21_float_witness) lmds_bounds_witness)).
+  exact (conj (proj1 f21_validate_witness) (conj (proj1 (proj2 f21_validate_witness))
+          (conj (proj1 f21_float_witness) (conj (proj2 f21_float_witness) lmds_bounds_witness)))).
 Qed.
